@@ -1256,6 +1256,16 @@ class ExtendNode(ViewRepresentation):
                         + str(opk)
                         + "'"
                     )
+                if opk.inline:
+                    # infix/prefix operators (x + 1, -x, x > 2) are row-wise, never window functions
+                    raise ValueError(
+                        "non-aggregated expression in windowed/partitioned extend: "
+                        + "'"
+                        + k
+                        + "': '"
+                        + str(opk)
+                        + "'"
+                    )
                 if len(opk.args) > 1:
                     for i in range(1, len(opk.args)):
                         if not isinstance(opk.args[i], data_algebra.expr_rep.Value):
